@@ -16,10 +16,13 @@ def scenarios(k, kinds, order, acts, closepos, closekind, ident, tagged=None):
     """kinds[i] in 'c','n'; order: permutation of range(k); acts[i] in 'f' (finish), 'x' (peer cancels, then finish);
     closepos in 0..k or None"""
     s = []
+    # the peer's call seqnos start at 0 in half of the histories (the first notification's task must not meet call 0's) and at 10
+    # in the others
+    base = 0 if order[0] % 2 == 0 else 10
     for i in range(k):
         tg = ("m", [(("s", b"tag%d" % i), ("s", b"v%d" % i))]) if tagged and tagged[i] else None
         if kinds[i] == "c":
-            s.append(scn.feed_call(10 + i, 100 + i, tags=tg))
+            s.append(scn.feed_call(base + i, 100 + i, tags=tg))
         else:
             s.append(scn.feed_notify(100 + i, tags=tg))
         s.append("waithandlers/%d" % (i + 1))
@@ -36,7 +39,7 @@ def scenarios(k, kinds, order, acts, closepos, closekind, ident, tagged=None):
         if closepos == pos:
             do_close()
         if acts[h] == "x" and kinds[h] == "c":
-            s.append(scn.feed_cancel(10 + h))
+            s.append(scn.feed_cancel(base + h))
             s.append("settle")
         s.append(scn.finish(h, 100 + h))
         s.append("settle")
